@@ -49,10 +49,11 @@ int ext__openat(int dirfd, str_t name, int flags)
 }
 FILE_t ext__fdopen(int fd, str_t mode) { __CPROVER_assert(fd == g_procs_fd, "fdopen on the fd just opened"); return (FILE_t)(nondet_bool() ? 1 : 0); }
 int ext__close(int fd) { return 0; }
-int ext__fclose(FILE_t f) { return 0; }
+int ext__fclose(FILE_t f) { __CPROVER_assert(f != 0, "UB: fclose(NULL)"); return 0; }
 void ext__free(void *p) { }
 int64_t ext__getline(str_t *line, uint64_t *len, FILE_t fp)
 {
+  __CPROVER_assert(fp != 0, "UB: getline on a NULL stream (fdopen failed)");
   int64_t r = nondet_i64();
   __CPROVER_assume(r >= -1 && r <= 64);
   if (r >= 0) *line = (str_t)7;      /* PROCS_LINE: a non-null buffer holding one line of cgroup.procs */
